@@ -60,6 +60,45 @@ def install_recorders():
     Characteristic._verif_recorders = True
 
 
+def bump_value(c) -> bool:
+    """Change the characteristic's value through the public `set_value` (which notifies when the
+    value changed and the characteristic belongs to an accessory). True if the value changed."""
+    props = c.properties
+    fmt = props.get("Format")
+    old = c.value
+    vv = props.get("ValidValues")
+    if vv:
+        cands = list(vv.values())
+    elif fmt == "bool":
+        cands = [True, False]
+    elif fmt in ("int", "float", "uint8", "uint16", "uint32", "uint64"):
+        lo, hi = props.get("minValue", 0), props.get("maxValue", 100)
+        cands = [lo, hi, 1, 2, 21.5 if fmt == "float" else 21, 50]
+    elif fmt == "string":
+        cands = ["x", "y"]
+    else:
+        cands = ["AQEA", "AgEB"]
+    for v in cands:
+        try:
+            c.set_value(v)
+        except Exception:  # noqa: BLE001 - not a valid value for this characteristic: try the next
+            continue
+        if c.value != old:
+            return True
+    return False
+
+
+def early_changes(acc, picks) -> List[Any]:
+    """`set_value` on the picked characteristics (indices into all of the accessory's
+    characteristics) -- used before the accessory is handed to the bridge / driver."""
+    chars = [c for s in acc.services for c in s.characteristics]
+    done = []
+    for k in picks:
+        if chars and bump_value(chars[k % len(chars)]):
+            done.append(chars[k % len(chars)])
+    return done
+
+
 class GetterBoom(Exception):
     pass
 
@@ -84,7 +123,7 @@ class ScriptedGetter:
 
 
 class Rig:
-    def __init__(self, bridge: bool, main_specs: List[dict], main_aid: Optional[int] = 1):
+    def __init__(self, bridge: bool, main_specs: List[dict], main_aid: Optional[int] = 1, main_early=None):
         import pyhap.accessory_driver as ad
         from pyhap.accessory import Accessory, Bridge
         from pyhap.loader import Loader
@@ -129,6 +168,8 @@ class Rig:
         for spec in main_specs:
             self.add_service(self.top, spec, number=False)
         self.number_accessory(self.top)
+        # value changes made while the accessory is being set up, before the driver knows it
+        self.early_objs = early_changes(self.top, main_early or [])
         self.driver.add_accessory(self.top)
         self.events: List[dict] = []  # every acc_data handed to driver.publish
         self.pushed: List[tuple] = []  # (data, client) handed to http_server.push_event
